@@ -396,7 +396,8 @@ def _pos_harness(prop, mac, var, ds):
 # Family BARRIER (C03 sync/async) and ASYNC (C09)
 # ======================================================================================
 
-SYNC_OPS = ["map", "or_else", "and_then", "map_err", "or", "inspect", "then"]
+# the last two are wrappers (`X >>> inner <<<`): as the deferred action of a step they must open the step like any other
+SYNC_OPS = ["map", "or_else", "and_then", "map_err", "or", "inspect", "then", "wrap_map", "wrap_and_then"]
 
 
 def _sync_op(kind, i, s, pos):
@@ -424,6 +425,12 @@ def _sync_op(kind, i, s, pos):
     if kind == "then":
         cl = "|r: Result<u8, u8>| { ev(%s); r.map(|x| x.wrapping_add(%d)) }" % (c, k)
         return "-> " + cl, "@call@" + cl
+    if kind == "wrap_map":
+        cl = "|x: u8| { ev(%s); x.wrapping_add(%d) }" % (c, k)
+        return "|> >>> -> " + cl + " <<<", ".map(%s)" % cl
+    if kind == "wrap_and_then":
+        cl = "|x: u8| { ev(%s); if x & 1 == 0 { Ok::<u8, u8>(x.wrapping_add(%d)) } else { Err::<u8, u8>(x) } }" % (c, k)
+        return "=> >>> -> " + cl + " <<<", ".and_then(%s)" % cl
     raise KeyError(kind)
 
 
